@@ -479,20 +479,28 @@ func SelectPick(site string, k, n int) int {
 
 // lockPlain takes a lock when no scheduler is in charge. A goroutine waiting on a sync.Mutex is not "durably
 // blocked" for testing/synctest, so if the holder is asleep in SIMULATED time (a slow application callback inside
-// the engine's critical section) the clock could never advance and the run would hang in real time. Brief
-// contention with a running holder is waited out by yielding; after that the waiter sleeps in simulated time,
-// which lets the holder's sleep end.
+// the engine's critical section) the clock could never advance and the run would hang in real time. The harness
+// announces such sleeps (SleepHoldingLocks); only while one is in progress does a waiter wait in simulated time
+// (which lets the sleep end, and happens at instants that depend on simulated time alone). Otherwise it waits
+// like a mutex would - by yielding, in real time, with no effect on the simulated clock: a first version that fell
+// back to a simulated sleep after a number of yields made traces depend on machine load (20 of 3200 same-seed
+// runs diverged with 32 processes on 16 cores).
 func lockPlain(try func() bool) {
-	if try() {
-		return
-	}
-	for i := 0; i < 20000; i++ {
-		runtime.Gosched()
-		if try() {
-			return
+	for !try() {
+		if sleepers.Load() > 0 {
+			time.Sleep(time.Millisecond)
+		} else {
+			runtime.Gosched()
 		}
 	}
-	for !try() {
-		time.Sleep(time.Millisecond)
-	}
+}
+
+var sleepers atomic.Int32
+
+// SleepHoldingLocks is time.Sleep for harness code that runs inside engine callbacks (possibly under engine
+// locks): it tells lock waiters that the holder is asleep in simulated time.
+func SleepHoldingLocks(d time.Duration) {
+	sleepers.Add(1)
+	time.Sleep(d)
+	sleepers.Add(-1)
 }
